@@ -908,6 +908,18 @@ C13(rec) ==
     : j \in 1..Len(rec.proj)}
 
 -----------------------------------------------------------------------------
+\* C20 the tracing feature is observationally inert.  rec.obs / rec.obs_b / rec.obs_c are the traces of
+\* the same scenario and the same decisions recorded from three builds/configurations of the real
+\* code: feature off; feature on without a subscriber; feature on with a TRACE-level subscriber.
+\* Closure probes (fn events) are part of the trace, so an expression evaluated twice shows up.
+C20(rec) ==
+  (IF rec.obs_b # rec.obs
+   THEN {W("C20", "differs_without_subscriber", FirstDiff(rec.obs, rec.obs_b), "", rec.cfg, "")} ELSE {})
+  \cup
+  (IF rec.obs_c # rec.obs
+   THEN {W("C20", "differs_with_subscriber", FirstDiff(rec.obs, rec.obs_c), "", rec.cfg, "")} ELSE {})
+
+-----------------------------------------------------------------------------
 \* dispatcher used by the model configurations (MC_*) and by TraceProps
 PropsOf(p, cfg, obs) ==
   CASE p = "C01" -> C01(cfg, obs)
